@@ -10,9 +10,13 @@ package main
 import (
 	"fmt"
 	"os"
+	"runtime/debug"
+	"runtime/pprof"
 	"sort"
 	"strconv"
 )
+
+var profStop = func() {}
 
 var checks = map[string]func(c *Ctx){}
 var replays = map[string]func(c *Ctx, path string){}
@@ -21,6 +25,7 @@ var children = map[string]func(args []string){}
 func toStr(p any) string { return fmt.Sprint(p) }
 
 func main() {
+	debug.SetGCPercent(400)
 	if len(os.Args) >= 3 && os.Args[1] == "--child" {
 		fn, ok := children[os.Args[2]]
 		if !ok {
@@ -65,6 +70,11 @@ func main() {
 	if !ok {
 		fmt.Fprintf(os.Stderr, "no check for %s\n", prop)
 		os.Exit(2)
+	}
+	if pf := os.Getenv("VCHECK_PROF"); pf != "" {
+		f, _ := os.Create(pf)
+		pprof.StartCPUProfile(f)
+		profStop = func() { pprof.StopCPUProfile(); f.Close() }
 	}
 	c := newCtx(prop, tier, seed)
 	if replay != "" {
